@@ -423,17 +423,22 @@ func genRound3(c *drv.Ctx, emit func(Case)) {
 	// ... and long batches under pressure: groups of 8 requests bound at the same instant, 16 cores
 	for _, opid := range []string{"getNested", "listNotes", "addNote", "postForm"} {
 		nb++
-		emit(Case{API: api, Conc: 16, Procs: 16, Via: "inproc", Gate: 8, Batch: Batch{Op: opid, Count: batchSize(thorough), Seed: nb}})
+		emit(Case{API: api, Conc: 16, Procs: 16, Via: "inproc", Gate: 8, Batch: Batch{Op: opid, Count: 2000, Seed: nb}})
 		nb++
-		emit(Case{API: api, Conc: 64, Procs: 16, Via: "http", Gate: 8, Batch: Batch{Op: opid, Count: batchSize(thorough), Seed: nb}})
+		emit(Case{API: api, Conc: 64, Procs: 16, Via: "http", Gate: 8, Batch: Batch{Op: opid, Count: 2000, Seed: nb}})
+		// ... the long ones recorded by lean `call` events
+		for _, gate := range []int{8, 4} {
+			nb++
+			emit(Case{API: api, Conc: 4 * gate, Procs: 16, Via: "inproc", Gate: gate, Batch: Batch{Op: opid, Count: batchSize(thorough), Seed: nb, Lean: true}})
+		}
 	}
 }
 
 func batchSize(thorough bool) int {
 	if thorough {
-		return 20000
+		return 120000
 	}
-	return 4000
+	return 50000
 }
 
 // ---- round 4 -----------------------------------------------------------------------------
